@@ -223,6 +223,10 @@ func specEq(a, b jobctl.Spec) bool {
 
 func stableSyncPhase(o jobctl.Obs) bool { return o.Cache.Phase == 1 || o.Cache.Phase == 4 }
 
+// DirectedTag: spec.maxRetry of the directed families resync / versionbump (no history of theirs restarts often
+// enough for the value to matter); laws() requires law 201's guard at their last sync request.
+const DirectedTag = 7
+
 func syncReq() jobctl.Op { return jobctl.Op{Code: 1, Req: jobctl.Req{Event: 8, UidMatch: 1}} }
 
 func laws(sel int, in, got []int64, law func(lsel int, lin []int64, sig string)) {
@@ -233,6 +237,12 @@ func laws(sel int, in, got []int64, law func(lsel int, lin []int64, sig string))
 			panic("laws called without the matching run")
 		}
 		h, obs := lastHist, lastObs
+		lastReq := -1
+		for k, o := range h.Ops {
+			if o.Code == 1 {
+				lastReq = k
+			}
+		}
 		cacheSpec, apiSpec := h.Spec, h.Spec
 		for k, o := range h.Ops {
 			prev, cur := obs[k], obs[k+1]
@@ -276,6 +286,19 @@ func laws(sel int, in, got []int64, law func(lsel int, lin []int64, sig string))
 					w.Obs(0, prev)
 					w.Obs(1, cur)
 					law(201, w.T, "")
+				}
+				// the directed families (tagged by maxRetry = DirectedTag) are built so that at their LAST sync
+				// request the views are fresh, the sync succeeds and the job is on the sync path: there law 201's
+				// guard is REQUIRED (law 221), so that a guard that never holds cannot pass unnoticed
+				if h.Spec.MaxRetry == DirectedTag && k == lastReq {
+					w := &jobctl.W{}
+					w.Spec(cacheSpec)
+					w.Req(o.Req)
+					w.B(cur.FreshBefore && specEq(cacheSpec, apiSpec))
+					w.B(cur.PgViewBefore)
+					w.Obs(0, prev)
+					w.Obs(1, cur)
+					law(221, w.T, "")
 				}
 				if cur.Wrote {
 					cacheSpec = apiSpec // the UpdateStatus response refreshes the cached job
